@@ -183,18 +183,20 @@ def wfNs (E : Enc) : Option Str → Bool
   | none => true
   | some u => decide (u ∈ E.strings) && safeUri u
 
-/-- the resource map does not rename the attribute: the slot of the name's index is beyond the map, or holds an id that
-    is not a system attribute, or holds the id of the system attribute of that very name -/
-def resNameOk (E : Enc) (name : Str) : Bool :=
-  match (E.resIds.getD [])[sidx E name]? with
+/-- the resource map does not change the attribute's name: the slot of the name's index is beyond the map, or holds an id
+    that is not a system attribute, or holds the id of the system attribute of that very name.  In the last case the code takes
+    the name from its table with "_" replaced by ":", and `_fix_name` turns ":" back into "_" unless it takes the part before
+    it for a namespace prefix, which it never does for an attribute that has a namespace: a system name with "_" needs one. -/
+def resNameOk (E : Enc) (a : SAttr) : Bool :=
+  match (E.resIds.getD [])[sidx E a.name]? with
   | none => true
   | some id =>
     match sysAttrName id with
     | none => true
-    | some n => decide ((n.map fun c => if c = 0x5F then 0x3A else c) = name)
+    | some n => decide (n = a.name) && (a.ns.isSome || !a.name.contains 0x5F) && decide (a.name.head? ≠ some 0x5F)
 
 def wfAttr (opq : Nat → Nat → Str) (E : Enc) (a : SAttr) : Bool :=
-  wfNs E a.ns && decide (a.name ∈ E.strings) && decide (LegalName a.name) && resNameOk E a.name
+  wfNs E a.ns && decide (a.name ∈ E.strings) && decide (LegalName a.name) && resNameOk E a
     && decide (a.ty < 256) && decide (a.raw < 2 ^ 32) && decide (a.data < 2 ^ 32)
     && (decide (a.ty ≠ 3) || decide (a.str ∈ E.strings))
     && decide (LegalValue (formatValue opq a.ty a.data a.str))
